@@ -1323,21 +1323,18 @@ class Concatenate(CanBehaveLikeAVariable[T]):
         if self._id_ in sources:
             yield sources
             return
-        all_values = defaultdict(list)
-        for child_v in self._child_._evaluate__(sources):
-            child_v = copy(child_v)
-            for id_, val in child_v.items():
-                if id_ == self._child_._id_:
-                    child_v_unwrapped = val.value
-                    if not is_iterable(child_v_unwrapped):
-                        child_v_unwrapped = [child_v_unwrapped]
-                    all_values[self._id_].extend(child_v_unwrapped)
-                all_values[id_].append(val)
-            for s_id, s_val in sources.items():
-                all_values[s_id].append(s_val)
         # no binding of the child at all (e.g. only empty collections below a flatten) is the empty concatenation
-        all_values.setdefault(self._id_, [])
-        yield {k: HashedValue(v) for k, v in all_values.items()}
+        concatenation = []
+        for child_v in self._child_._evaluate__(sources):
+            child_v_unwrapped = child_v[self._child_._id_].value
+            if not is_iterable(child_v_unwrapped):
+                child_v_unwrapped = [child_v_unwrapped]
+            concatenation.extend(child_v_unwrapped)
+        # The single value is the combined list; the variables it was collected over are not bound by it (they ranged over
+        # all their values), the incoming bindings stay what they are.
+        output = copy(sources)
+        output[self._id_] = HashedValue(concatenation)
+        yield output
 
     @property
     def _name_(self):
